@@ -52,6 +52,19 @@ Theorem C06_setup_effect :
 Proof. exact sd_setup_spec. Qed.
 Print Assumptions C06_setup_effect.
 
+(* the same clause for user-written setup handlers (any SetupHandler): setting up a composite calls
+   the handlers of its members one after the other — the calls of a tuple / derived struct are the
+   concatenation of its members' calls, i.e. exactly one call per such member, in order, at any
+   nesting, independent of what the world already contains *)
+Theorem C06_setup_calls_compose :
+  forall l, sd_setup_calls (STuple l) = concat (map sd_setup_calls l).
+Proof. exact sd_setup_calls_tuple. Qed.
+Print Assumptions C06_setup_calls_compose.
+Theorem C06_setup_calls_every_custom_member_once_in_order :
+  forall d, sd_setup_calls d = custom_leaves d.
+Proof. exact sd_setup_calls_are_the_custom_members. Qed.
+Print Assumptions C06_setup_calls_every_custom_member_once_in_order.
+
 Example C06_example :
   let d := STuple [SRead 0 HDefault; STuple [SOptWrite 1; SUnit; SWrite 2 HPanic]; SPhantom; SOptRead 3] in
   sd_reads d = [0; 3]%N /\ sd_writes d = [1; 2]%N /\
